@@ -259,7 +259,7 @@ pub async fn run(args: &Args) {
         "generated rule lists (length 0..12, duplicates, deny anywhere, filterless rules anywhere, erroring filters anywhere; filters from a template family whose truth the harness computes: ==/!= on listener/source/target/feature, port ==, >=, _:, =~ literals, cidr_match vs bitwise containment, &&/||/!) loaded through rules::from_config + set_rules; requests (listener, IPv4/IPv6 source, domain/IPv4/IPv6 target, port, feature) run through the real process_request with recording connectors of random feature sets and a real load balancer. distinct = distinct (rule list text, request) pairs where at least one filter was evaluated",
     );
     let mut rng = Rng::new(args.seed);
-    let n_lists = args.n(700, 120_000);
+    let n_lists = args.n(5000, 200_000);
     let all_features = [Feature::TcpForward, Feature::UdpForward, Feature::UdpBind, Feature::TcpBind];
     let mut decisions = std::collections::HashMap::<String, u64>::new();
     let mut cidr_checks = 0u64;
@@ -398,7 +398,7 @@ pub async fn run(args: &Args) {
     {
         let recs = vec![RecConnector::new("c0", &all_features)];
         let state = make_state(&recs, &[]).await.unwrap();
-        let n = args.n(1500, 60_000);
+        let n = args.n(8000, 100_000);
         for _ in 0..n {
             let v6 = rng.chance(1, 2);
             let ip: IpAddr = if v6 {
